@@ -9,6 +9,7 @@ import (
 	"path/filepath"
 	"strconv"
 	"strings"
+	"time"
 
 	"golang.org/x/text/unicode/norm"
 )
@@ -107,6 +108,14 @@ func runGates(tier string, seed int64, phase string) {
 		}
 	}
 	runSourcePanics(seed, langs[0])
+	// the same accepted counts in a process that is no longer young, after an idle pause
+	ageAtLeast(map[string]time.Duration{"quick": 6 * time.Second, "thorough": 70 * time.Second}[tier])
+	maybeCutNow()
+	as := &scriptReader{fill: newRng(seed, "gates/aged"), after: "data"}
+	swapSource(as, "counting")
+	for _, n := range []int64{12, 15, 18, 21, 24, 13, 12} {
+		recNewMnemonic(n, langs[0], Event{"fam": "aged"})
+	}
 	swapSource(osRandReader(), "os")
 }
 
@@ -409,6 +418,13 @@ func runRobust(tier string, seed int64, phase string) {
 				outW.Flush()
 				recNewMnemonic(n, l, Event{"fam": "robust"})
 			}
+		}
+		if tier == "thorough" && strconv.IntSize == 64 {
+			// arguments just beyond one gibibyte (fixed-size array views, 30-bit length fields): about 2.5 GB of memory
+			big := strings.Repeat("a", 1<<30+1)
+			recToSeedHuge(big, "", "mnemonic of 2^30+1 bytes")
+			recToSeedHuge("", big[:1<<30-7], "passphrase of 2^30-7 bytes (salt of 2^30+1)")
+			recCheckHuge(big, "2^30+1 bytes", 2)
 		}
 		return
 	}
